@@ -32,7 +32,9 @@ const PLAIN_NAMES: [&str; 32] = ["a", "b", "c", "name", "given_name", "addr", "x
     "$", "$$", "ctl\u{1}\u{1f}", "del\u{7f}", "e\u{301}", "zw\u{200b}\u{200d}", "pua\u{e000}", "~", "0", "-1"];
 const WILD_NAMES: [&str; 10] = ["", "a.b", "c[0]", ".", "[", "$.x", "[0]", "[x]", "]", "[1].a"];
 const NONBMP_NAMES: [&str; 2] = ["\u{1f600}", "k\u{1d4b3}"];
-const STRS: [&str; 16] = [
+const STRS: [&str; 25] = [
+    // boundaries of the UTF-8 / UTF-16 encodings and of JSON's \u escapes
+    "\u{7f}", "\u{80}", "\u{7ff}", "\u{800}", "\u{d7ff}", "\u{e000}", "\u{fffe}\u{ffff}", "\u{ffff}", "\u{10000}",
     "x", "", "\u{e9}", "\u{65e5}\u{672c}\u{8a9e}", "a,b", "p\":q", "u:[v", "\u{7f}\u{1}", "tab\t", "  two  spaces ", "back\\slash", "[1, 2]", "{\"a\": 1}", "null", "\u{2028}", "~.~",
 ];
 
